@@ -58,14 +58,17 @@ func (s *Server) filterDNSRequest(dctx *dnsContext) (res *filtering.Result, err 
 }
 
 // isRewrittenCNAME returns true if the request considered to be rewritten with
-// CNAME and has no resolved IPs.
+// CNAME and has no resolved IPs, so that the canonical name must be resolved by
+// the upstream.  It is not when the legacy rewrites cover the canonical name
+// itself: the name then has no value of the requested type.
 func isRewrittenCNAME(res *filtering.Result) (ok bool) {
 	return res.Reason.In(
 		filtering.Rewritten,
 		filtering.RewrittenRule,
 		filtering.FilteredSafeSearch) &&
 		res.CanonName != "" &&
-		len(res.IPList) == 0
+		len(res.IPList) == 0 &&
+		!res.CanonNameRewritten
 }
 
 // checkHostRules checks the host against filters.  It is safe for concurrent
